@@ -169,3 +169,58 @@ macro_rules! transfer_split {
     };
 }
 transfer_split!(c06_transfer_split_len40, 40);
+
+// ---- C06 (ii): the repo's length-delimited decoder configuration under stream fragmentation ----
+macro_rules! prefix_split {
+    ($name:ident, $k:expr) => {
+        // @unwind 12
+        // @bound an 8-byte stream prefix with every value of the 4-byte size field, delivered as the first K bytes and then the rest (K concrete per harness, K = 0..8, i.e. every boundary inside the size field and the frame header); decoder built by the repo's length_delimited_decoder(512)
+        // @desc the frame handed to the AMQP frame decoder is independent of how the bytes were split across reads; sizes above max-frame-size or below 4 are rejected, not mis-framed
+        pharness!($name, |s| {
+            let stream: [u8; 8] = s.bytes::<8>();
+            let size = u32::from_be_bytes([stream[0], stream[1], stream[2], stream[3]]);
+            // whole stream at once
+            let mut whole = BytesMut::new();
+            whole.put_slice(&stream);
+            let mut d1 = length_delimited_decoder(512);
+            let r1 = d1.decode(&mut whole);
+            // split delivery
+            let mut part = BytesMut::new();
+            part.put_slice(&stream[..$k]);
+            let mut d2 = length_delimited_decoder(512);
+            let first = d2.decode(&mut part);
+            let r2 = match first {
+                Ok(None) => {
+                    part.put_slice(&stream[$k..]);
+                    d2.decode(&mut part)
+                }
+                other => other,
+            };
+            match (&r1, &r2) {
+                (Ok(Some(a)), Ok(Some(b))) => {
+                    assert!(a.len() == b.len(), "[C06] frame length depends on how the stream was split");
+                    assert!(size >= 4 && size <= 8 && a.len() == (size - 4) as usize, "[C06] frame body is not size-4 bytes");
+                    let mut i = 0;
+                    while i < a.len() {
+                        assert!(a[i] == b[i] && a[i] == stream[4 + i], "[C06] frame bytes depend on how the stream was split");
+                        i += 1;
+                    }
+                    vcover!(s, a.len() == 4, "4-byte frame reassembled");
+                }
+                (Ok(None), Ok(None)) => {
+                    assert!(size > 8 && size <= 512, "[C06] a complete frame was reported incomplete");
+                }
+                (Err(_), Err(_)) => {
+                    assert!(size < 4 || size > 512, "[C06] a frame within max-frame-size was rejected");
+                    vcover!(s, size > 512, "oversized frame rejected");
+                }
+                _ => assert!(false, "[C06] decoding depends on how the stream was split"),
+            }
+            std::mem::forget((r1, r2, whole, part));
+        });
+    };
+}
+prefix_split!(c06_prefix_split_k1, 1);
+prefix_split!(c06_prefix_split_k3, 3);
+prefix_split!(c06_prefix_split_k4, 4);
+prefix_split!(c06_prefix_split_k6, 6);
